@@ -37,6 +37,8 @@ def handle (st : St) (line : String) : St × String :=
   | "v1tok" :: id :: hx :: _ => (st, id ++ "\t" ++ V1.runV1Tok (unhex hx))
   | "v1tok" :: id :: _ => (st, id ++ "\t" ++ V1.runV1Tok [])
   | "v1exact" :: id :: u :: v :: _ => (st, id ++ "\t" ++ V1.runV1Exact (unhex u) (unhex v))
+  | "v1uniq" :: id :: f :: _ => (st, id ++ "\t" ++ V1.runV1Uniq f)
+  | "v1uniq" :: id :: _ => (st, id ++ "\t" ++ V1.runV1Uniq "")
   | "v1post" :: id :: f :: _ => (st, id ++ "\t" ++ V1.runV1Post f)
   | "v1post" :: id :: _ => (st, id ++ "\t" ++ V1.runV1Post "")
   | "clean" :: id :: hx :: _ => (st, id ++ "\t" ++ Path.runClean hx)
